@@ -1029,6 +1029,10 @@ def gradient_doc(rng, template_before_user=False):
         vb = r.choice(("0 0 100 60", "0 0 70 100", "0 0 120 80", "-10 -5 110 70"))
         g.f["grad_nonsquare_viewbox"] += 1
     root = g.document(body_nodes=body, viewbox=vb)
+    if r.random() < 0.2 and root.children and root.children[0].tag == "defs":
+        # gradients may be declared after the shapes that use them
+        root.children.append(root.children.pop(0))
+        g.f["grad_defs_after_users"] += 1
     return to_xml(root), g.f, root
 
 
